@@ -210,7 +210,9 @@ SHOULD_PARSE = Contract(
     params={"self": Ref("TestNode"), "worker": (Ref("TestWorker"), "nullable")},
     requires=WF_NODE + IS_UNROLLED.requires[:3] + IS_CLEANUP_READY.requires + [
         "forall(self.shared_involved_workers, lambda w: w is not None and w.net is not None)",
-        "self.is_shared_root() or len(self.objects) == 0"],
+        "self.is_shared_root() or len(self.objects) == 0",
+        # formatting the worker in the log message calls TestWorker.__repr__, which reads its spawner parameter
+        "implies(worker is not None, 'nets_spawner' in worker.params)"],
     overrides=dict(GETTER_OVERRIDES, **{"TestNode.is_unrolled": by_contract(IS_UNROLLED),
                                         "TestNode.is_cleanup_ready": by_contract(IS_CLEANUP_READY)}),
     stubs=IS_CLEANUP_READY.stubs,
